@@ -38,6 +38,19 @@ def gen_plan(rng, tier, config, opts):
     faulty = not rng.chance(0.2)          # a fifth of the runs are fault free
     nops = rng.choice([4, 8, 12, 20, 30])
     slot_types = {}
+    if curve == 'BN_P256' and rng.chance(0.25):
+        # structured G2 points on the boundaries of the compression rule: uncompressed bytes -> decode -> encode
+        # compressed -> decode (and back)
+        F = 32
+        for _ in range(rng.randint(1, 3)):
+            (x, y) = rng.choice(special_g2_points())
+            if rng.chance(0.3):
+                y = ((-y[0]) % _BN256['p'], (-y[1]) % _BN256['p'])
+            t = rng.choice(['ep2', 'ep2', 'g2'])
+            s = rng.below(8)
+            raw = b'\x04' + b''.join(c.to_bytes(F, 'big') for c in (x[0], x[1], y[0], y[1]))
+            lines += ['RAW %d %s %s' % (s, t, raw.hex()), 'DEC %d %s' % (s, t), 'XCODE %d %s 1' % (s, t), 'DEC %d %s' % (s, t),
+                      'XCODE %d %s 0' % (s, t), 'DEC %d %s' % (s, t)]
     for _ in range(nops):
         r = rng.below(100)
         if r < 62:
@@ -161,6 +174,75 @@ class Fp2:
         if a == (0, 0):
             return True
         return self.pow(a, (self.p * self.p - 1) // 2) == (1, 0)
+
+
+def _fp2_cbrt(f2, c):
+    """A cube root of c in F_p^2 (Adleman-Manders-Miller for q = p^2 = 1 mod 9), or None if c is not a cube."""
+    if c == (0, 0):
+        return (0, 0)
+    q = f2.p * f2.p
+    if f2.pow(c, (q - 1) // 3) != (1, 0):
+        return None
+    s_, t = 0, q - 1
+    while t % 3 == 0:
+        s_, t = s_ + 1, t // 3
+    # a generator of the 3-Sylow subgroup
+    g = (2, 1)
+    while f2.pow(g, (q - 1) // 3) == (1, 0):
+        g = (g[0] + 1, g[1])
+    a = f2.pow(g, t)                                    # order 3^s
+    e = pow(3, -1, t)                                   # 3 e = 1 + m t
+    m = (3 * e - 1) // t
+    x0 = f2.pow(c, e)                                   # x0^3 = c * (c^t)^m
+    z = f2.pow(f2.pow(c, t), m)                         # in the 3-Sylow subgroup, and a cube there
+    # discrete logarithm of z to the base a, digit by digit (Pohlig-Hellman in a group of order 3^s)
+    d, ainv = 0, f2.pow(a, 3 ** s_ - 1)
+    w3 = f2.pow(a, 3 ** (s_ - 1))                       # primitive cube root of unity
+    zz = z
+    for i in range(s_):
+        h = f2.pow(zz, 3 ** (s_ - 1 - i))
+        k = 0 if h == (1, 0) else (1 if h == w3 else 2)
+        d += k * 3 ** i
+        zz = f2.mul(zz, f2.pow(ainv, k * 3 ** i))
+    if d % 3:
+        return None
+    w = f2.pow(ainv, d // 3)                            # w^3 = z^-1
+    x = f2.mul(x0, w)
+    return x if f2.mul(f2.mul(x, x), x) == c else None
+
+
+_BN256 = dict(p=0xb64000000000ff2f2200000085fd5480b0001f44b6b88bf142bc818f95e3e6af, b=(4, -1))
+_SPECIAL_G2 = []
+
+
+def special_g2_points():
+    """Points of the BN_P256 twist (a = 0, u^2 = -1) whose y-coordinate sits on a boundary of the compression rule:
+    imaginary part 0 with a large / small real part, imaginary part (p-1)/2 or (p+1)/2, real part 0.  Found by
+    choosing y and solving x^3 = y^2 - b (not in the order-r subgroup in general: the point codec does not care)."""
+    if _SPECIAL_G2:
+        return _SPECIAL_G2
+    p = _BN256['p']
+    f2 = Fp2(p, -1)
+    b = (_BN256['b'][0] % p, _BN256['b'][1] % p)
+    half = (p - 1) // 2
+    fams = [lambda k: (p - 1 - k, 0), lambda k: (half + 1 + k, 0), lambda k: (half - k, 0), lambda k: (1 + k, 0),
+            lambda k: (1 + k, half), lambda k: (1 + k, half + 1), lambda k: (p - 1 - k, half), lambda k: (0, 1 + k),
+            lambda k: (0, p - 1 - k), lambda k: (half, half), lambda k: (1 + k, 1), lambda k: (1 + k, p - 1)]
+    for fam in fams:
+        got = 0
+        for k in range(40):
+            y = fam(k)
+            y2 = f2.mul(y, y)
+            c = ((y2[0] - b[0]) % p, (y2[1] - b[1]) % p)
+            x = _fp2_cbrt(f2, c)
+            if x is not None:
+                _SPECIAL_G2.append((x, y))
+                got += 1
+                if got >= 2:
+                    break
+            if fam(0) == fam(1):
+                break
+    return _SPECIAL_G2
 
 
 def gf2_mul(a, b, poly, m):
@@ -445,6 +527,15 @@ def check(plan, transcript, config, opts):
             if r is not None:
                 bad(typ, 'roundtrip', 'encoder-output-invalid:' + r, 'the encoder produced bytes the model rejects: %s' % ln[:300])
             out.keys.add((typ, int(f[3]), f[4], 'enc'))
+        elif tag == 'RAW':
+            s, typ = int(f[1]), f[2]
+            if f[3] == 'none':
+                slots.pop(s, None)
+                continue
+            cur = unhex(kv(f)['now'])
+            # never the output of the encoder as far as the oracle knows: judged like damaged bytes
+            slots[s] = dict(type=typ, fmt=0, enc=None, cur=cur, faults=['raw'], gen='raw')
+            out.fault('raw-structured-bytes')
         elif tag == 'FAULT':
             s = int(f[1])
             if f[2] == 'none' or s not in slots:
